@@ -534,3 +534,200 @@ def A4(ctx, family):
 
 def A5(ctx, family):
     return _sub_lemma(ctx, "A5", "__find_newline_delimiters", family)
+
+
+# ---------------------------------------------------------------------------------------------------------------
+# A6: __flatten_bits_incremental by loop-head induction
+
+def _shr_ext(M, s):
+    """M >> s for 0 <= s <= 64 (x86 would mask a count of 64 to 0; the mathematical value is 0)"""
+    return z3.If(s == 64, BV(0, 64), z3.LShR(M, s))
+
+
+def _lowmask(s):
+    """bits [0, s) set, 0 <= s <= 64"""
+    return z3.If(s == 64, BV(M64, 64), (BV(1, 64) << s) - 1)
+
+
+def _lowest_bit_is(x, z):
+    """z (64-bit term) is the index of the lowest set bit of x"""
+    return z3.And(z3.ULT(z, 64), z3.Extract(0, 0, z3.LShR(x, z)) == 1, (x & ((BV(1, 64) << z) - 1)) == 0)
+
+
+def _flat_state(L, M, i0, c0, p0, size):
+    st = fresh_state()
+    H.havoc_gprs(st, "a6")
+    idx = st.add_region("indexes", size * 4, kind="log")
+    st.regs["rdi"] = BV(idx.base, 64)
+    st.regs["rax"], st.regs["rbx"], st.regs["rdx"], st.regs["r10"] = M, i0, c0, p0
+    return st
+
+
+def A6(ctx):
+    INDEX_SIZE, LIMIT = go_consts()
+    name = "__flatten_bits_incremental"
+    L = LemmaRun(ctx, "A6", bound="any mask/carried/position, index <= indexSize-64 = %d; loop-head induction: first iteration, "
+                                  "one arbitrary iteration under the invariant, exit; plus plain unrolling for masks with <= 3 set bits"
+                                  % (INDEX_SIZE - 64))
+    ex, prog = L.ex, L.prog
+    ins = prog.func_instrs(name)
+    back = [i for i in ins if i.mnem == "jmp" and isinstance(i.ops[0], lift.Label) and i.ops[0].addr <= i.addr]
+    if len(back) != 1:
+        raise Inconclusive("A6: expected exactly one back edge in %s, found %d" % (name, len(back)))
+    head = back[0].ops[0].addr
+    M, i0, c0, p0 = z3.BitVec("mask", 64), z3.BitVec("index0", 64), z3.BitVec("carried0", 64), z3.BitVec("position0", 64)
+    pre = [z3.ULE(i0, INDEX_SIZE - 64)]
+    ctx.assume("A6: index <= indexSize-64 on entry (the slice drivers call with index < indexSizeWithSafetyBuffer = %d: A7 obligation)" % LIMIT)
+    ctx.assume("A6: composition rule = induction over the loop trip count (base: first iteration establishes the invariant; "
+               "step: one iteration from any state satisfying it re-establishes it and covers exactly one more set bit; exit: nothing "
+               "left uncovered). The induction itself, and index' = index + popcount(mask) derived from it (one store and one increment per "
+               "covered set bit), are not solver inferences; the unrolled cross-check confirms them for masks with <= 3 set bits.")
+    fsum = refs.FLAT_summary(M, i0, c0, p0)
+
+    def witness(m):
+        return {"request": {"op": "flat", "fam": "avx2", "buf": "", "a": [mval(m, i0), mval(m, M), mval(m, c0), mval(m, p0)]}}
+
+    def rp(w):
+        return replay_vs_ref(dict(w["request"], buf=b""))
+
+    def fail(what, m):
+        L.violation(what, witness(m), rp)
+        return L.finish()
+
+    def inv(st, shifts, idx):
+        """loop-head invariant: `shifts` low bits of the mask consumed, the last consumed bit is set, idx entries written"""
+        return [st.regs["r8"] == shifts, z3.And(z3.UGE(shifts, 1), z3.ULE(shifts, 64)),
+                st.regs["rax"] == _shr_ext(M, shifts),
+                z3.Extract(0, 0, z3.LShR(M, shifts - 1)) == 1,
+                st.regs["r10"] == p0 + c0 + shifts, st.regs["rdx"] == 0,
+                st.regs["rbx"] == idx, z3.And(z3.ULT(i0, idx), z3.ULE(idx - i0, shifts))]
+
+    def all_hold(f, claims, extra):
+        for c in claims:
+            m = L.refute(f, c, extra)
+            if m is not None:
+                return m
+        return None
+
+    def one_store(st, idx_term, val32):
+        lg = st.region("indexes").log
+        if len(lg) != 1:
+            return z3.BoolVal(False)
+        off, n, v, _ = lg[0]
+        return z3.And(off == 4 * idx_term, z3.BoolVal(n == 4), v == val32)
+
+    # (a) first iteration
+    st = _flat_state(L, M, i0, c0, p0, INDEX_SIZE)
+    init = dict(st.regs)
+    ex.push(st, BV(x86.SENTINEL_RET, 64), None)
+    st.pc = prog.entry(name)
+    fins = ex.run(st, stop_at=[head])
+    z = z3.BitVec("z_first", 64)
+    for f in fins:
+        L.paths += 1
+        if f.exit == "ret":
+            L.reach(f, "first.empty", pre)
+            m = L.refute(f, z3.And(M == 0, f.regs["rbx"] == fsum[0], f.regs["rdx"] == fsum[1], f.regs["r10"] == fsum[2],
+                                   z3.BoolVal(len(f.region("indexes").log) == 0)), pre)
+            if m is not None:
+                return fail("first iteration, empty mask: wrong index/carried/position", m)
+        else:
+            L.reach(f, "first.head", pre)
+            zc = [_lowest_bit_is(M, z)]
+            m = all_hold(f, [one_store(f, i0, z3.Extract(31, 0, z + 1 + c0)),
+                             (M & _lowmask(z + 1)) == (BV(1, 64) << z)] + inv(f, z + 1, i0 + 1), pre + zc)
+            if m is not None:
+                return fail("first iteration: stored delta / shifted mask / invariant at the loop head wrong", m)
+        o, m = L.bounds(f, pre)
+        if o is not None:
+            return fail("first iteration: " + o.what, m)
+    if sorted(f.exit for f in fins) != ["ret", "stop:%x" % head]:
+        raise Inconclusive("A6: unexpected path structure of the first iteration: %s" % [f.exit for f in fins])
+
+    # (b) one arbitrary iteration from the loop head under the invariant, (c) exit
+    shifts = z3.BitVec("shifts", 64)
+    st = _flat_state(L, M, i0, c0, p0, INDEX_SIZE)
+    ex.push(st, BV(x86.SENTINEL_RET, 64), None)
+    st.regs["r8"] = shifts
+    st.regs["rax"] = _shr_ext(M, shifts)
+    st.regs["r10"] = p0 + c0 + shifts
+    st.regs["rdx"] = BV(0, 64)
+    idx = z3.BitVec("idx", 64)
+    st.regs["rbx"] = idx
+    hyp = pre + [z3.UGE(shifts, 1), z3.ULE(shifts, 64), z3.Extract(0, 0, z3.LShR(M, shifts - 1)) == 1,
+                 z3.ULT(i0, idx), z3.ULE(idx - i0, shifts)]
+    ex.assumptions = list(hyp)
+    idx_here = st.regs["rbx"]
+    st.pc = head
+    fins = ex.run(st, stop_at=[head])
+    ex.assumptions = []
+    z2 = z3.BitVec("z_step", 64)
+    for f in fins:
+        L.paths += 1
+        if f.exit == "ret":
+            L.reach(f, "exit", hyp)
+            m = all_hold(f, [f.regs["rdx"] == 64 - shifts, (M & _lowmask(shifts)) == M, f.regs["rbx"] == idx,
+                             f.regs["rdx"] == fsum[1], f.regs["r10"] == fsum[2],
+                             z3.BoolVal(len(f.region("indexes").log) == 0)], hyp)
+            if m is not None:
+                return fail("loop exit: carried/index/position differ from FLAT", m)
+        else:
+            L.reach(f, "step", hyp)
+            cur = _shr_ext(M, shifts)
+            zc = [_lowest_bit_is(cur, z2)]
+            s2 = shifts + z2 + 1
+            m = all_hold(f, [one_store(f, idx, z3.Extract(31, 0, z2 + 1)),
+                             (M & _lowmask(s2)) == ((M & _lowmask(shifts)) | (BV(1, 64) << (s2 - 1)))] + inv(f, s2, idx + 1), hyp + zc)
+            if m is not None:
+                return fail("loop iteration: stored delta is not the distance to the next set bit, or invariant not re-established", m)
+        o, m = L.bounds(f, hyp)
+        if o is not None:
+            return fail("loop iteration: " + o.what, m)
+    if sorted(f.exit for f in fins) != ["ret", "stop:%x" % head]:
+        raise Inconclusive("A6: unexpected path structure of the loop body: %s" % [f.exit for f in fins])
+
+    # (d) cross-check by plain unrolling, masks with <= 3 set bits (bit positions are the primary symbols)
+    allfins = []
+    for k in range(4):
+        ps = [z3.BitVec("p%d" % j, 64) for j in range(k)]
+        Mk = BV(0, 64)
+        for pj in ps:
+            Mk = Mk | (BV(1, 64) << pj)
+        small = pre + [z3.ULT(c0, 1 << 31)] + [z3.ULT(pj, 64) for pj in ps] + [z3.ULT(ps[j], ps[j + 1]) for j in range(k - 1)]
+        st = _flat_state(L, Mk, i0, c0, p0, INDEX_SIZE)
+        ex.assumptions = list(small)
+        ex.loop_bound = 3
+        ex.push(st, BV(x86.SENTINEL_RET, 64), None)
+        st.pc = prog.entry(name)
+        fins = ex.run(st)
+        ex.assumptions = []
+        allfins += fins
+        if len(fins) != 1:
+            raise Inconclusive("A6: unrolled run with %d set bits has %d feasible paths" % (k, len(fins)))
+        f = fins[0]
+        L.paths += 1
+        L.reach(f, "unrolled%d" % k, small)
+        lg = f.region("indexes").log
+        want_d = [(ps[j] + 1 + c0) if j == 0 else (ps[j] - ps[j - 1]) for j in range(k)]
+        claims = [z3.BoolVal(len(lg) == k), f.regs["rbx"] == i0 + k,
+                  f.regs["rdx"] == ((63 - ps[-1]) if k else (c0 + 64)),
+                  f.regs["r10"] == ((p0 + ps[-1] + 1 + c0) if k else p0)]
+        for j, (off, n, v, _) in enumerate(lg[:k]):
+            claims += [off == 4 * (i0 + j), z3.BoolVal(n == 4), v == z3.Extract(31, 0, want_d[j])]
+        m = all_hold(f, claims, small)
+        if m is not None:
+            w = {"request": {"op": "flat", "fam": "avx2", "buf": "", "a": [mval(m, i0), mval(m, Mk), mval(m, c0), mval(m, p0)]}}
+            L.violation("unrolled run (%d set bits): deltas / index / carried / position differ from FLAT" % k, w, rp)
+            return L.finish()
+    fins = allfins
+    bad = []
+    for f in fins:
+        c = H.CONTRACT[name]
+        for r, v0 in init.items():
+            if r in c["out"] or r in c["clobber"] or r == "rsp":
+                continue
+            if not f.regs[r].eq(v0):
+                bad.append(r)
+    if bad:
+        raise Inconclusive("A6: %s changes registers outside its contract: %s" % (name, sorted(set(bad))))
+    return L.finish()
